@@ -76,6 +76,9 @@ func RunRealChecker(l *Loaded, roots []string, sequential, sanity bool) (*Outcom
 		if l.Test[i] != nil {
 			pkgs = append(pkgs, mk(l.Test[i]))
 		}
+		if l.XTest[i] != nil {
+			pkgs = append(pkgs, mk(l.XTest[i]))
+		}
 	}
 	g, err := checker.Analyze(analyzer.AllAnalyzers(), pkgs, &checker.Options{Sequential: sequential, SanityCheck: sanity})
 	if err != nil {
